@@ -90,12 +90,15 @@ Definition ctab (p : sprec) (sec i : Z) : Z :=
   | None => 0
   end.
 
-Definition y_of_rgb (p : sprec) (r g b : Z) : Z :=
-  to_sample p (Z.shiftr (ctab p c_R_Y_OFF r + ctab p c_G_Y_OFF g + ctab p c_B_Y_OFF b) c_scalebits).
-Definition cb_of_rgb (p : sprec) (r g b : Z) : Z :=
-  to_sample p (Z.shiftr (ctab p c_R_CB_OFF r + ctab p c_G_CB_OFF g + ctab p c_B_CB_OFF b) c_scalebits).
-Definition cr_of_rgb (p : sprec) (r g b : Z) : Z :=
-  to_sample p (Z.shiftr (ctab p c_R_CR_OFF r + ctab p c_G_CR_OFF g + ctab p c_B_CR_OFF b) c_scalebits).
+Definition y_raw (p : sprec) (r g b : Z) : Z :=
+  Z.shiftr (ctab p c_R_Y_OFF r + ctab p c_G_Y_OFF g + ctab p c_B_Y_OFF b) c_scalebits.
+Definition cb_raw (p : sprec) (r g b : Z) : Z :=
+  Z.shiftr (ctab p c_R_CB_OFF r + ctab p c_G_CB_OFF g + ctab p c_B_CB_OFF b) c_scalebits.
+Definition cr_raw (p : sprec) (r g b : Z) : Z :=
+  Z.shiftr (ctab p c_R_CR_OFF r + ctab p c_G_CR_OFF g + ctab p c_B_CR_OFF b) c_scalebits.
+Definition y_of_rgb (p : sprec) (r g b : Z) : Z := to_sample p (y_raw p r g b).
+Definition cb_of_rgb (p : sprec) (r g b : Z) : Z := to_sample p (cb_raw p r g b).
+Definition cr_of_rgb (p : sprec) (r g b : Z) : Z := to_sample p (cr_raw p r g b).
 
 Definition px3 := (Z * Z * Z)%type.
 Definition c0 (t : px3) : Z := fst (fst t).
@@ -229,10 +232,19 @@ Fixpoint h2v1_cols (p : sprec) (L : layout) (ys cbs crs : list Z) (buf : list Z)
   | _, _ => buf
   end.
 
+(* the same row written pixel by pixel after replicating the chroma samples: the
+   specification h2v1_cols is compared with *)
+Fixpoint dup2 (l : list Z) : list Z := match l with [] => [] | x :: t => x :: x :: dup2 t end.
+Fixpoint zip3 (a b c : list Z) : list px3 :=
+  match a, b, c with x :: ta, y :: tb, z :: tc => (x, y, z) :: zip3 ta tb tc | _, _, _ => [] end.
+
 Fixpoint zip3rows (a b c : list (list Z)) : list (list Z * list Z * list Z) :=
   match a, b, c with x :: ta, y :: tb, z :: tc => (x, y, z) :: zip3rows ta tb tc | _, _, _ => [] end.
 Definition h2v1_rows (p : sprec) (L : layout) (ys cbs crs : list (list Z)) (buf : list Z) (ptrs : list Z) : list Z :=
   write_rows (fun r => h2v1_cols p L (fst (fst r)) (snd (fst r)) (snd r)) (zip3rows ys cbs crs) buf ptrs.
+(* what merged upsampling is specified to equal: ordinary conversion of the row with every chroma sample used twice *)
+Definition merged_image (ys cbs crs : list (list Z)) : list (list px3) :=
+  map (fun r => zip3 (fst (fst r)) (dup2 (snd (fst r))) (dup2 (snd r))) (zip3rows ys cbs crs).
 (* h2v2_merged_upsample_internal: two output rows share one chroma row *)
 Fixpoint dup_rows {A : Type} (l : list A) : list A := match l with [] => [] | x :: t => x :: x :: dup_rows t end.
 Definition h2v2_rows (p : sprec) (L : layout) (ys cbs crs : list (list Z)) (buf : list Z) (ptrs : list Z) : list Z :=
@@ -241,12 +253,6 @@ Definition h2v2_rows (p : sprec) (L : layout) (ys cbs crs : list (list Z)) (buf 
 Definition amax_of_bits (bits : Z) : Z :=
   if bits =? 8 then MAXJSAMPLE else if bits =? 12 then MAXJ12SAMPLE else MAXJ16SAMPLE.
 Definition prec_of_bits (bits : Z) : sprec := if bits =? 12 then prec12 else prec8.
-
-(* the same row written pixel by pixel after replicating the chroma samples: the
-   specification h2v1_cols is compared with *)
-Fixpoint dup2 (l : list Z) : list Z := match l with [] => [] | x :: t => x :: x :: dup2 t end.
-Fixpoint zip3 (a b c : list Z) : list px3 :=
-  match a, b, c with x :: ta, y :: tb, z :: tc => (x, y, z) :: zip3 ta tb tc | _, _, _ => [] end.
 
 (* ------------------------------------------------------------------ building buffers *)
 Definition quad := (Z * Z * Z * Z)%type.     (* r, g, b and the filler that goes to every other position *)
@@ -288,6 +294,12 @@ Definition same_rgbp (t : option (Z * Z * Z * Z * Z)) (L : layout) : bool :=
   end.
 Definition same_alpha (t : option (Z * Z * Z * Z * Z)) (L : layout) : bool :=
   match t with Some (_, _, _, a, _) => a =? aoff L | None => false end.
+
+Definition rgbp_of (t : option (Z * Z * Z * Z * Z)) : option (Z * Z * Z * Z) :=
+  match t with Some (r, g, b, _, p) => Some (r, g, b, p) | None => None end.
+Definition alpha_of (t : option (Z * Z * Z * Z * Z)) : option Z :=
+  match t with Some (_, _, _, a, _) => Some a | None => None end.
+Definition layout_rgbp (L : layout) : Z * Z * Z * Z := (roff L, goff L, boff L, psz L).
 
 Definition c_dispatch_tables := [disp_jccolor_rgb_ycc_convert; disp_jccolor_rgb_gray_convert; disp_jccolor_rgb_rgb_convert].
 Definition d_dispatch_tables := [disp_jdcolor_ycc_rgb_convert; disp_jdcolor_gray_rgb_convert; disp_jdcolor_rgb_rgb_convert;
